@@ -22,6 +22,7 @@ CONSTANTS
   StartBeforeEmit = TRUE
   CmdFreshTicket = TRUE
   TimeoutUsesRemove = FALSE
+  LossCancelsTimers = FALSE
   LstCode = "uu"
 INVARIANT TypeOK
 INVARIANT DistinctTickets
